@@ -120,4 +120,9 @@ theorem sessionLookup_map (cfg : Config) (h : Hello) (a b : Option SessionState)
     · rfl
     · split <;> rfl
 
+theorem find?_never {α : Type} (l : List α) : l.find? (fun _ => false) = none := by
+  induction l with
+  | nil => rfl
+  | cons a t ih => simp [ih]
+
 end BfeVerif.C44
